@@ -158,6 +158,7 @@ pub open spec fn hdr_bytes_at(h: Header, b: Seq<u8>, o: int, zmask: u8) -> bool 
 }
 
 impl BinEncodable for Header {
+    open spec fn in_place_ok() -> bool { true }
 //%fn crates/proto/src/op/header.rs :: impl BinEncodable for Header :: emit
 //%attr #[verifier::rlimit(80)]
 //%attr #[verifier::spinoff_prover]
